@@ -293,7 +293,9 @@ def gen_cases(rng, n):
   for k in range(n):
     fan = rng.choice([3, 3, 4]) if k % 9 == 4 else 0
     alias = (k % 9 == 7)     # directed: one tensor under two graph outputs x static recipe
-    const_out = (k % 27 == 11)    # directed: the model also RETURNS one of its constants (F27)
+    # directed: the model also RETURNS one of its constants (F27) — C01's stream only: the
+    # consequences of F27 would otherwise show up under C03/C04/C08 as well
+    const_out = (k % 27 == 11) and os.environ.get('VERIF_PROP', 'C01') == 'C01'
     gg.DUP_PROB = 1.0 if alias else 0.06
     gg.CONST_OUTPUT_PROB = 1.0 if const_out else 0.0
     try:
